@@ -328,11 +328,18 @@ func (s Traversal) BreadthFirst(ctx context.Context, plan Plan) error {
 						return nil
 					}
 				}
-			}); err != nil && !errors.Is(err, graph.ErrContextTimedOut) && !errors.Is(err, context.Canceled) {
-				// A worker encountered a fatal error, kill the traversal context
+			}); err != nil {
+				// A timeout or cancellation is only expected once the traversal context itself is done. While it is
+				// still live the same error is this worker's own failure: the segment it was expanding is never
+				// marked complete, so the traversal must be stopped here or the coordinator waits forever.
+				fatal := traversalCtx.Err() == nil || (!errors.Is(err, graph.ErrContextTimedOut) && !errors.Is(err, context.Canceled))
+
+				// Kill the traversal context so that the remaining workers and the coordinator join
 				doneFunc()
 
-				errorCollector.Add(fmt.Errorf("reader %d failed: %w", workerID, err))
+				if fatal {
+					errorCollector.Add(fmt.Errorf("reader %d failed: %w", workerID, err))
+				}
 			}
 		}(workerID)
 	}
